@@ -1,0 +1,177 @@
+//! Verification hooks, only compiled with the `verif` cargo feature.
+//!
+//! A pass observer is called once per assembly pass (after the pass has been emitted and the
+//! segment symbols have been registered, before the pass loop decides whether to continue).
+//! It receives a digest of all state that is carried over to the next pass, so that a repeated
+//! digest sequence is a deterministic witness of a pass loop that will never end.
+use super::CodegenContext;
+use crate::errors::Diagnostics;
+use itertools::Itertools;
+use std::cell::RefCell;
+use std::collections::hash_map::DefaultHasher;
+use std::collections::HashSet;
+use std::hash::{Hash, Hasher};
+
+#[derive(Clone, Debug)]
+pub struct PassInfo {
+    pub pass_idx: usize,
+    /// Digest of (symbols, undefined sets, errors of this and the previous pass, segments, banks)
+    pub digest: u64,
+    /// Digest of the symbol values only
+    pub symbols_digest: u64,
+    pub num_symbols: usize,
+    pub num_undefined: usize,
+    pub num_errors: usize,
+    /// Number of bytes currently in all segments
+    pub num_bytes: usize,
+}
+
+pub type PassObserver = Box<dyn FnMut(&PassInfo) -> bool>;
+
+thread_local! {
+    static OBSERVER: RefCell<Option<PassObserver>> = RefCell::new(None);
+    static ENV_HISTORY: RefCell<Vec<u64>> = RefCell::new(vec![]);
+}
+
+/// Installs (or removes) the pass observer of the current thread. The observer returns `true` to stop the pass loop.
+pub fn set_pass_observer(observer: Option<PassObserver>) {
+    OBSERVER.with(|o| *o.borrow_mut() = observer);
+}
+
+fn hash_lines(lines: &[String]) -> u64 {
+    let mut h = DefaultHasher::new();
+    for l in lines {
+        l.hash(&mut h);
+    }
+    h.finish()
+}
+
+fn diag_lines(tag: &str, d: &Diagnostics) -> Vec<String> {
+    d.iter()
+        .map(|d| {
+            format!(
+                "{}|{}|{:?}",
+                tag,
+                d.message,
+                d.labels.iter().map(|l| l.file_id).collect_vec()
+            )
+        })
+        .collect()
+}
+
+pub(super) fn pass_info(
+    ctx: &CodegenContext,
+    errors: &Diagnostics,
+    prev_errors: &Diagnostics,
+    prev_undefined: &HashSet<super::UndefinedSymbol>,
+) -> PassInfo {
+    let all = ctx.symbols.all();
+    let mut sym_lines = all
+        .iter()
+        .map(|(path, (_, s))| {
+            format!(
+                "S|{}|{:?}|{:?}|{:?}|{:?}",
+                path, s.ty, s.data, s.span, s.segment
+            )
+        })
+        .collect_vec();
+    sym_lines.sort();
+    let symbols_digest = hash_lines(&sym_lines);
+
+    let mut lines = sym_lines;
+    let mut und = ctx
+        .undefined
+        .iter()
+        .map(|u| format!("U|{:?}|{}|{:?}", u.scope_nx, u.id, u.span))
+        .collect_vec();
+    und.sort();
+    lines.extend(und);
+    let mut pund = prev_undefined
+        .iter()
+        .map(|u| format!("PU|{:?}|{}|{:?}", u.scope_nx, u.id, u.span))
+        .collect_vec();
+    pund.sort();
+    lines.extend(pund);
+    lines.extend(diag_lines("E", errors));
+    lines.extend(diag_lines("PE", prev_errors));
+    let mut num_bytes = 0;
+    for (name, seg) in &ctx.segments {
+        let o = seg.options();
+        let mut h = DefaultHasher::new();
+        seg.range_data().hash(&mut h);
+        num_bytes += seg.range_data().len();
+        lines.push(format!(
+            "G|{}|{:?}|{}|{}|{}|{}|{:?}|{:x}",
+            name,
+            o.bank,
+            o.initial_pc,
+            o.target_address,
+            o.write,
+            seg.pc(),
+            seg.range(),
+            h.finish()
+        ));
+    }
+    for (name, b) in &ctx.banks {
+        lines.push(format!(
+            "B|{}|{:?}|{:?}|{}|{:?}",
+            name, b.size, b.fill, b.create_segment, b.filename
+        ));
+    }
+    lines.push(format!("C|{:?}", ctx.current_segment));
+
+    PassInfo {
+        pass_idx: ctx.pass_idx,
+        digest: hash_lines(&lines),
+        symbols_digest,
+        num_symbols: all.len(),
+        num_undefined: ctx.undefined.len(),
+        num_errors: errors.len(),
+        num_bytes,
+    }
+}
+
+/// Returns the length of the period if the tail of `h` has repeated with that period at least `reps` times
+fn periodic_tail(h: &[u64], reps: usize) -> Option<usize> {
+    let n = h.len();
+    for period in 1..=(n / (reps + 1)) {
+        let ok = (0..period * reps).all(|i| h[n - 1 - i] == h[n - 1 - i - period]);
+        if ok {
+            return Some(period);
+        }
+    }
+    None
+}
+
+/// Called by the pass loop. Returns `true` when the loop must stop.
+pub(super) fn observe(info: PassInfo) -> bool {
+    let handled = OBSERVER.with(|o| o.borrow_mut().as_mut().map(|f| f(&info)));
+    if let Some(stop) = handled {
+        return stop;
+    }
+
+    // No observer installed: a process-wide guard can be configured through the environment, so that
+    // a non-terminating input ends the process with a recognisable status instead of hanging forever.
+    if let Ok(cap) = std::env::var("MOS_VERIF_PASSES") {
+        let cap: usize = cap.parse().unwrap_or(500);
+        let verdict = ENV_HISTORY.with(|h| {
+            let mut h = h.borrow_mut();
+            if info.pass_idx == 0 {
+                h.clear();
+            }
+            h.push(info.digest);
+            if let Some(period) = periodic_tail(&h, 3) {
+                Some(format!("cycle period={} pass={}", period, info.pass_idx))
+            } else if h.len() >= cap {
+                Some(format!("cap={} pass={}", cap, info.pass_idx))
+            } else {
+                None
+            }
+        });
+        if let Some(v) = verdict {
+            eprintln!("MOS-VERIF nonterminating {}", v);
+            std::process::exit(97);
+        }
+    }
+    false
+}
